@@ -1713,3 +1713,28 @@ pub fn from_real(p: &PushProgram) -> MP {
         PushProgram::Block(b) => MP::Block(b.iter().map(from_real).collect()),
     }
 }
+
+/// One instance of every instruction shape (literals with placeholder payloads).
+#[must_use]
+pub fn all_shapes() -> Vec<MI> {
+    use MI::*;
+    let mut v = Vec::new();
+    for t in Ty::ALL {
+        v.extend([Pop(t), Dup(t), Swap(t), IsEmpty(t), StackDepth(t), Flush(t)]);
+    }
+    for t in Ty::DATA {
+        v.extend([Print(t), PrintLn(t)]);
+    }
+    v.extend([
+        PushInt(0),
+        PushFloat(0.0),
+        PushBool(true),
+        PushExec(Box::new(MP::Block(vec![]))),
+        Negate, Abs, Min, Max, Clamp, Inc, Dec, Add, Sub, Mul, Div, Mod, Pow, Square, IsZero,
+        IsPositive, IsNegative, IsEven, IsOdd, Eq, Ne, Lt, Le, Gt, Ge, IntFromBool, IntFromFloat,
+        FAdd, FSub, FMul, FDiv, FEq, FNe, FGt, FLt, FGe, FLe, FloatFromInt, Not, Or, And, Xor,
+        Implies, BoolFromInt, Noop, DupBlock, When, Unless, IfElse, PrintSpace, PrintNewline,
+        PrintPeriod, PrintString("x y".into()), Input("x".into()),
+    ]);
+    v
+}
